@@ -244,7 +244,11 @@ func (r *FeatureLocal) ApproveOrDenyWrite(msg *api.Message, err model.ErrorType)
 		}
 	}
 
-	timer.Stop()
+	// if the timer already fired or was stopped by another approval or denial,
+	// the outcome of this write has been decided and sent already
+	if !timer.Stop() {
+		return
+	}
 
 	delete(r.writeApprovalReceived[ski], *msg.RequestHeader.MsgCounter)
 
